@@ -242,17 +242,11 @@ impl ErrorRenderer for PrettyColorRenderer {
                 DiffLine::UnexpectedLines { lines } => {
                     lines.iter().for_each(|(line_index, line)| {
                         let eol = (line.as_ref() as &[u8]).ends_in_newline();
-                        let line = if !eol {
-                            let mut line = line.clone();
-                            line.extend(b" (no-eol)");
-                            line
-                        } else {
-                            line.to_owned()
-                        };
-                        let line = outcome
-                            .escaping
-                            .escaped_expectation(&line)
-                            .higlight_tailing_spaces();
+                        let mut line = outcome.escaping.escaped_expectation(line);
+                        if !eol {
+                            line.push_str(" (no-eol)");
+                        }
+                        let line = line.higlight_tailing_spaces();
                         last_error_index = Some(diff_index);
                         output.push_str(
                             &decorator
